@@ -735,7 +735,15 @@ func (s *Srv) RegisterFault(key glow.PublicKey, sig glow.Signature) string {
 	if _, err := os.Stat(path); err == nil {
 		return "skipped"
 	}
-	if err := os.Mkdir(path, 0755); err != nil {
+	// two kinds of fault: the file cannot be opened for writing (a directory sits at its path), or it opens
+	// and the write itself fails (the path leads to /dev/full)
+	kind := "unopenable"
+	if _, err := os.Stat("/dev/full"); err == nil && len(key) > 0 && key[0]%2 == 0 {
+		if err := os.Symlink("/dev/full", path); err != nil {
+			return "skipped"
+		}
+		kind = "write-fails"
+	} else if err := os.Mkdir(path, 0755); err != nil {
 		return "skipped"
 	}
 	gr := server.GCARegistration{GCAKey: key, Signature: sig}
@@ -747,12 +755,43 @@ func (s *Srv) RegisterFault(key glow.PublicKey, sig glow.Signature) string {
 	} else if err != nil {
 		obs = "ERR:" + err.Error()
 	}
-	s.T.Count("registerfault:" + obs)
+	s.T.Count("registerfault:" + kind + ":" + obs)
 	if s.Full {
 		s.T.Line("srv.noeffect what=register-with-unwritable-key-file key=%s => %s", hx(key[:]), obs)
 		s.T.Line("srv.snap => %s", s.snapWithDisk())
 		return obs
 	}
 	s.T.Line("srv.noeffect what=register-with-unwritable-key-file key=%s => %s%s", hx(key[:]), obs, s.after())
+	return obs
+}
+
+// AuthorizeFault submits a correctly signed authorization for a new device while the authorization log
+// cannot be appended to (its path leads to /dev/full: open succeeds, write fails). It must be refused and
+// leave no trace in memory: an authorization that is not on disk would be forgotten by the next start.
+func (s *Srv) AuthorizeFault(ea glow.EquipmentAuthorization) string {
+	if _, err := os.Stat("/dev/full"); err != nil {
+		return "skipped"
+	}
+	path := s.E.Dir + "/equipment-authorizations.dat"
+	if os.Rename(path, path+".aside") != nil {
+		return "skipped"
+	}
+	os.Symlink("/dev/full", path)
+	st, _, err := s.E.PostJSON("/api/v1/authorize-equipment", ea)
+	os.Remove(path)
+	os.Rename(path+".aside", path)
+	obs := "refused"
+	if err == nil && st == 200 {
+		obs = "ok"
+	} else if err != nil {
+		obs = "ERR:" + err.Error()
+	}
+	s.T.Count("authorizefault:" + obs)
+	if s.Full {
+		s.T.Line("srv.noeffect what=authorize-with-unwritable-log a=%s => %s", hex.EncodeToString(ea.Serialize()), obs)
+		s.T.Line("srv.snap => %s", s.snapWithDisk())
+		return obs
+	}
+	s.T.Line("srv.noeffect what=authorize-with-unwritable-log a=%s => %s%s", hex.EncodeToString(ea.Serialize()), obs, s.after())
 	return obs
 }
